@@ -27,6 +27,7 @@ func c15Profile() Profile {
 	p.Ann = []annChoice{{"balance-algorithm", []string{"roundrobin", "leastconn"}}, {"ssl-redirect", []string{"false"}}}
 	p.SvcAnn = nil
 	p.MaxIng = 5
+	p.RotateTogether = true
 	return p
 }
 
